@@ -42,4 +42,6 @@ InvSwap == SwapLemma(Tab)
 InvCompl == ComplLemma(Tab)
 InvPerfect == PerfectTable(Tab)
 InvBounds == Bounds01(Tab)
+\* ---- witnesses against vacuity (tools/vacuity.py): each is the NEGATION of a lemma's antecedent and must be VIOLATED by some enumerated case ----
+W_PerfectTable == ~(c.kind = "table" /\ c.T[2] = 0 /\ c.T[3] = 0 /\ c.T[1] > 0 /\ c.T[4] > 0)
 =============================================================================
